@@ -76,7 +76,9 @@ pub enum OpKind {
     RetainIdx(Vec<bool>),
     RetainIds(Vec<u32>),
     Clear,
-    It { kind: IterKind, calls: Vec<bool>, forget: bool },
+    /// `unwind`: the iterator is neither dropped normally nor forgotten — the consumer panics while holding it, so
+    /// it is dropped during unwinding (the model treats this like a drop)
+    It { kind: IterKind, calls: Vec<bool>, forget: bool, unwind: bool },
     Dbg,
     Nop,
     /// `threads` reader threads run the same script of shared-reference operations concurrently
@@ -153,8 +155,8 @@ impl OpKind {
                 s
             }
             OpKind::Clear => "clear".to_owned(),
-            OpKind::It { kind, calls, forget } => {
-                format!("it {} {} {}", kind.name(), calls_str(calls), if *forget { "f" } else { "d" })
+            OpKind::It { kind, calls, forget, unwind } => {
+                format!("it {} {} {}", kind.name(), calls_str(calls), if *forget { "f" } else if *unwind { "u" } else { "d" })
             }
             OpKind::Dbg => "dbg".to_owned(),
             OpKind::Nop => "nop".to_owned(),
@@ -303,6 +305,7 @@ impl Line {
                         kind: IterKind::parse(k)?,
                         calls: calls.chars().filter(|c| *c == 'f' || *c == 'b').map(|c| c == 'f').collect(),
                         forget: *fate == "f",
+                        unwind: *fate == "u",
                     },
                     ["dbg"] => OpKind::Dbg,
                     ["nop"] => OpKind::Nop,
